@@ -162,23 +162,25 @@ type ptObj struct {
 }
 
 type Event struct {
-	Prog  int                    `json:"prog"`
-	I     int                    `json:"i"`
-	Op    string                 `json:"op"`
-	Recv  string                 `json:"recv"`
-	Args  []string               `json:"args"`
-	SS    []string               `json:"ss"`
-	PS    []string               `json:"ps"`
-	Outs  []string               `json:"outs"`
-	N     []int                  `json:"n"` // integer argument as little-endian bytes
-	Pre   map[string]interface{} `json:"pre"`
-	Post  map[string]interface{} `json:"post"`
-	Ret   string                 `json:"ret"` // "recv", "nil", "none", "fresh", or a register name
-	Err   int                    `json:"err"`
-	Panic int                    `json:"panic"`
-	Out   int                    `json:"out"`   // integer result, -1 if none
-	Delta []string               `json:"delta"` // uninvolved registers whose memory changed
-	Slice int                    `json:"slice"` // 1 if an input slice of pointers was modified
+	Prog   int                    `json:"prog"`
+	I      int                    `json:"i"`
+	Op     string                 `json:"op"`
+	Recv   string                 `json:"recv"`
+	Args   []string               `json:"args"`
+	SS     []string               `json:"ss"`
+	PS     []string               `json:"ps"`
+	Outs   []string               `json:"outs"`
+	N      []int                  `json:"n"` // integer argument as little-endian bytes
+	Pre    map[string]interface{} `json:"pre"`
+	Post   map[string]interface{} `json:"post"`
+	Ret    string                 `json:"ret"` // "recv", "nil", "none", "fresh", or a register name
+	Err    int                    `json:"err"`
+	Panic  int                    `json:"panic"`
+	Out    int                    `json:"out"`    // integer result, -1 if none
+	Delta  []string               `json:"delta"`  // uninvolved registers whose memory changed
+	Slice  int                    `json:"slice"`  // 1 if an input slice of pointers was modified
+	Digits []int                  `json:"digits"` // Shim.*: recoded digits
+	Elems  [][]int                `json:"elems"`  // Shim.*: table entries (limb vectors)
 }
 
 // ---------------------------------------------------------------------------
@@ -689,7 +691,7 @@ func nz(s []string) []string {
 func runStep(r *regs, prog, i int, st *Step) (ev Event) {
 	inv := involved(st)
 	ev = Event{Prog: prog, I: i, Op: st.Op, Recv: st.R, Args: nz(st.A), SS: nz(st.SS), PS: nz(st.PS), Outs: nz(st.O),
-		Pre: map[string]interface{}{}, Post: map[string]interface{}{}, Ret: "none", Out: -1, Delta: []string{}}
+		Pre: map[string]interface{}{}, Post: map[string]interface{}{}, Ret: "none", Out: -1, Delta: []string{}, Digits: []int{}, Elems: [][]int{}}
 	ev.N = make([]int, 8)
 	u64le(ev.N, st.N)
 	for _, n := range inv {
@@ -706,7 +708,14 @@ func runStep(r *regs, prog, i int, st *Step) (ev Event) {
 				ev.Panic = 1
 			}
 		}()
-		res = exec(r, st)
+		if len(st.Op) > 5 && st.Op[:5] == "Shim." {
+			if !execShim(r, st, &ev) {
+				panic("edrv: shim operation " + st.Op + " not available in this build")
+			}
+			res = result{ret: "none", out: -1}
+		} else {
+			res = exec(r, st)
+		}
 	}()
 	after := r.snap()
 	if ev.Panic == 0 {
@@ -777,7 +786,7 @@ func main() {
 		os.Exit(3)
 	}
 	if len(os.Args) >= 2 && os.Args[1] == "selftest" {
-		fmt.Println("edrv: layout ok")
+		fmt.Println("edrv: layout ok; shim:", haveShim)
 		return
 	}
 	if len(os.Args) == 4 && os.Args[1] == "run" {
